@@ -210,8 +210,8 @@ def variants_layer(ctx, n=2):
             for suffix in ("gb", "gff"):
                 annob = anno.render_genbank(genome, feats, rng) if suffix == "gb" else anno.render_gff(genome, feats, mix=rng)
                 ap = L.W("a%d.%s" % (k, suffix), annob)
-                for append in (False, True):
-                    s, e = rng.choice([(-1, -1), (1, -1), (-1, len(genome) // 2), (2, len(genome) - 1)])
+                for wi, (s, e) in enumerate([(-1, -1), (1, -1), (-1, len(genome) // 2), (2, len(genome) - 1)]):       # no window, each bound alone, both
+                    append = (wi + k) % 2 == 1
                     win = (["--start", str(s)] if s != -1 else []) + (["--end", str(e)] if e != -1 else [])
                     base = {"op": "variants", "msa": cm.b64(msa), "refid": "REF", "anno": cm.b64(annob), "suffix": suffix, "start": s, "end": e,
                             "append_snps": append, "threads": 2}
@@ -266,6 +266,12 @@ def _sam_inputs(rng):
     full = [("M", Lg // 2), ("I", 2), ("M", Lg - Lg // 2)] if rng.random() < 0.5 else [("M", Lg)]
     recs.append({"name": "qfull", "flag": 0, "pos": 0, "cigar": full,
                  "seq": samgen.build_seq(rng, full, 0, gen.mutate(rng, genome, p_sub=0.25, p_amb=0, p_gap=0, p_lower=0))})
+    # ... and one that differs from the reference at its first and at its last base (and nowhere else): every window that leaves
+    # out an end of the reference leaves out a mutation
+    ends = list(genome)
+    ends[0] = "A" if genome[0] != "A" else "C"
+    ends[-1] = "A" if genome[-1] != "A" else "C"
+    recs.append({"name": "qends", "flag": 0, "pos": 0, "cigar": [("M", Lg)], "seq": "".join(ends)})
     return Lg, genome, feats, recs
 
 
@@ -308,7 +314,8 @@ def sam_layer(ctx, which, n=2):
                 names = [b[0]["name"] for b in samgen.blocks_of(recs)]
                 files = [nm.replace("/", "_") + ".fasta" for nm in names]
                 for ci, (omit_ref, omit_ins) in enumerate(((False, False), (True, False), (False, True), (True, True))):
-                    outdir = os.path.join(L.tmp, "pairs%d_%d" % (k, ci))
+                    # the four runs go into ONE directory, the longest output first: a file left by an earlier run is replaced, not overwritten in place
+                    outdir = os.path.join(L.tmp, "pairs%d" % k)
                     os.makedirs(outdir, exist_ok=True)
                     argv = ["sam", "toPairAlign", "-s", sp, "-r", rp, "-o", outdir] + (["--omit-reference"] if omit_ref else []) + (["--skip-insertions"] if omit_ins else [])
                     r = cm.run_binary(L.binp, argv)
@@ -324,8 +331,8 @@ def sam_layer(ctx, which, n=2):
                 suffix = rng.choice(["gb", "gff"])
                 annob = anno.render_genbank(genome, feats, rng) if suffix == "gb" else anno.render_gff(genome, feats, mix=rng)
                 ap = L.W("a%d.%s" % (k, suffix), annob)
-                for append in (False, True):
-                    s, e = rng.choice([(-1, -1), (1, -1), (-1, Lg // 2), (2, Lg - 1)])
+                for wi, (s, e) in enumerate([(-1, -1), (1, -1), (-1, Lg // 2), (2, Lg - 1)]):       # no window, each bound alone, both
+                    append = (wi + k) % 2 == 1
                     win = (["--start", str(s)] if s != -1 else []) + (["--end", str(e)] if e != -1 else [])
                     base = {"op": "samvariants", "sam": cm.b64(samb), "ref": cm.b64(refb), "anno": cm.b64(annob), "suffix": suffix, "ref_from_file": True,
                             "start": s, "end": e, "append_snps": append, "aggregate": False, "threads": 2}
